@@ -129,10 +129,10 @@ PROPS = {
         level_note=COMMON_NOTE,
     ),
     'C17': dict(
-        components=[b('purity')],
+        components=[(S, 'frame_scan', {}), b('purity')],
         level='other',
         explanation='Sequential half: every function under contract has a postcondition result = spec(arguments), a history-free function. The schedule quantifier is not decided by this family (Kani has no threads, Verus cannot model std::thread); a differential run (orders, clones, 8 threads) is the only dynamic evidence.',
-        level_text='Not a proof: differential run only for the concurrent half; see explanation.',
+        level_text='Frame obligation (syntactic, whole crate): no construct through which &self code could mutate shared state exists in library code outside the guarded hooks (interior mutability, statics, thread-locals, const->mut casts, pointer writes) — so, by Rust\'s aliasing rules, every search is a function of the searcher and its input. The schedule quantifier itself is not decided by this family; a differential run (orders, clones, in-place modified buffers, 8 threads) is the only dynamic evidence.',
         level_note='Data-race freedom of a Sync value shared by & is Rust\'s soundness theorem (assumed).',
     ),
     'C18': dict(
